@@ -111,6 +111,9 @@ func printVal(sb *strings.Builder, v Val) {
 
 var registry = map[string]func([]Val) Val{}
 
+// "[a b]" and "[ a b ]" are the same request
+var bracketSpacer = strings.NewReplacer("[", " [ ", "]", " ] ")
+
 func register(name string, f func([]Val) Val) { registry[name] = f }
 
 var lastPanic string
@@ -163,7 +166,7 @@ func main() {
 	in.Buffer(make([]byte, 1<<20), 1<<28)
 	var sb strings.Builder
 	for in.Scan() {
-		toks := strings.Fields(in.Text())
+		toks := strings.Fields(bracketSpacer.Replace(in.Text()))
 		sb.Reset()
 		if len(toks) == 0 {
 			sb.WriteString("[8]")
